@@ -487,3 +487,55 @@ pub async fn stale_report(qkey: u64) -> String {
     me.stop(None);
     format!("after_death={a};after_stale_report={b}")
 }
+
+/// `Factory::post_stop` on a two-worker FactoryState: `fq` jobs (key 6, messages 200..) wait in the factory queue; the workers listed in `wq` are busy (key 5
+/// in flight) with one job (key 6, message 300 + wid) waiting in their own queue. One recording discard handler is shared by the factory and the workers.
+/// Returns "discards=<reason:message,..>;workers_running=<n>"
+pub async fn stop_step(fq: usize, wq: &[usize]) -> String {
+    use crate::factory::worker::verif_probe as wp;
+    let (me, _mh) = Actor::spawn(None, ProbeFactoryActor, ()).await.unwrap();
+    let rec = Arc::new(wp::Recorder(Mutex::new(Vec::new())));
+    let mut pool = HashMap::new();
+    let mut worker_by_actor = HashMap::new();
+    let mut actors = Vec::new();
+    for w in 0..2usize {
+        let busy = wq.contains(&w);
+        let (mut r, _got, _r2) = wp::record_logging_at(w, &[], if busy { &[5] } else { &[] }, false).await;
+        if busy {
+            wp::push_job(&mut r, 6, 300 + w as u64);
+        }
+        wp::set_handler(&mut r, rec.clone());
+        worker_by_actor.insert(r.actor.get_id(), w);
+        actors.push(r.actor.get_cell());
+        pool.insert(w, r);
+    }
+    let mut queue = DefaultQueue::<u64, u64>::default();
+    for i in 0..fq {
+        queue.push_back(Job { key: 6, msg: 200 + i as u64, options: JobOptions::default(), accepted: None });
+    }
+    let mut state: FactoryState<u64, u64, ProbeWorker, (), ScriptRouter, DefaultQueue<u64, u64>> = FactoryState {
+        factory_name: "verif".to_string(),
+        worker_builder: Box::new(ProbeBuilder),
+        pool_size: 2,
+        pool,
+        worker_by_actor,
+        stats: None,
+        router: ScriptRouter { script: Default::default(), choose: Default::default(), routed: Arc::new(Mutex::new(Vec::new())) },
+        queue,
+        discard_handler: Some(rec.clone()),
+        discard_settings: DiscardSettings::None,
+        drain_state: DrainState::NotDraining,
+        dead_mans_switch: None,
+        dead_mans_check: None,
+        capacity_controller: None,
+        lifecycle_hooks: None,
+    };
+    let f: Factory<u64, u64, (), ProbeWorker, ScriptRouter, DefaultQueue<u64, u64>> = Factory::default();
+    let _ = f.post_stop(me.clone(), &mut state).await;
+    crate::concurrency::sleep(Duration::from_millis(20)).await;
+    let running = actors.iter().filter(|c| matches!(c.get_status(), crate::ActorStatus::Running | crate::ActorStatus::Upgrading)).count();
+    me.stop(None);
+    // the recorder stores (reason, key); message ids are not kept, so report how many of each
+    let out = format!("discards={};workers_running={}", wp::recorded(&rec).iter().map(|(r, k)| format!("{r}:{k}")).collect::<Vec<_>>().join(","), running);
+    out
+}
